@@ -53,6 +53,38 @@ def run(ctx):
                 d, land, pos = -99, -99, -99
             row.append({"b": b, "pos": pos, "dist": d, "land": land})
         add({"kind": "cof", "a": a, "row": row, "grp": "t"})
+    # the same law through the entry points that carry keys: bars (attribute and messages, with and without notes) and
+    # sequences (key-signature messages read through both views, whichever view was current when transposing)
+    from harness import project as P
+    from scoda.elements.bar import Bar
+    from scoda.sequences.sequence import Sequence
+    ivs = range(-25, 26) if ctx.thorough else (-13, -12, -7, -5, -2, -1, 0, 1, 2, 3, 5, 6, 7, 11, 12, 14)
+    for k in Key:
+        for i in ivs:
+            outs, err = [], ""
+            try:
+                for notes in ([], [(0, 60, 0, 12, 80)]):
+                    b = Bar(P.seq_from_abs(P.notes_to_abs(notes, [], dur=96 if notes else None)) if notes else Sequence(), 4, 4, k)
+                    b.transpose(i)
+                    outs.append([k.value, kname(b.key_signature)])
+                    outs += [[k.value, m["k"]] for m in P.raw_rel(b.sequence) if m["ty"] == "ks"]
+                for route in ("abs", "rel", "both"):
+                    # a modulation: the second key is the first one moved by the interval of the call (a key the
+                    # transposition itself produces), the third repeats the first
+                    k2 = Key.transpose_key(k, i)
+                    src = [k.value, kname(k2), k.value]
+                    ms = P.notes_to_abs([(0, 60, 0, 12, 80)], [P.ks(0, src[0]), P.ks(6, src[1]), P.ks(9, src[2])])
+                    s = P.seq_from_abs(ms) if route != "rel" else P.seq_from_rel(P.abs_to_rel(ms))
+                    if route == "both":
+                        s.refresh()
+                    s.transpose(i)
+                    for view in (P.raw_abs(s), P.raw_rel(s)):
+                        got = [m["k"] for m in view if m["ty"] == "ks"]
+                        got += ["missing"] * (3 - len(got))
+                        outs += [[a, b_] for a, b_ in zip(src, got)]
+            except Exception as e:
+                err = type(e).__name__
+            add({"kind": "entry", "key": k.value, "i": i, "outs": outs, "err": err, "grp": "t"})
     # replay of the generated behaviours (paths of the reference transition system)
     for pi, p in enumerate(paths):
         try:
@@ -76,6 +108,8 @@ def run(ctx):
             return ("tk", o["key"], o["i"])
         if o["kind"] == "cof":
             return ("cof", o["a"])
+        if o["kind"] == "entry":
+            return ("entry", o["key"], o["i"])
         if o["kind"] == "path" and not o["first"]:
             return ("path", o["grp"])
         return None
